@@ -83,9 +83,11 @@ CLAIMS = {
              "wrapped parser that consumes the whole input (c04_sentence_sound, c04_sentence_only_if: Sentence succeeds ONLY IF such a "
              "derivation exists); Evaluate never panics on a tree whose non-terminals carry applicable interpreters - Select in range, "
              "Object over key/value nodes with string keys, Array, Nil, any custom interpreter that does not panic itself (c04_eval, "
-             "c04_eval_root), and does panic without an interpreter (c04_eval_needs_interpreter). The IF direction of the Sentence iff "
-             "is proved for the monotone fragment (c01_sentence_complete_parse in Props/C01C.lean); outside it the harness's "
-             "derivation oracle decides it per case (known finding D9: Name/Single over Optional).",
+             "c04_eval_root), and does panic without an interpreter (c04_eval_needs_interpreter). The full Sentence IFF is proved end "
+             "to end for certified grammars of the monotone fragment (Props/C04I.lean, c04_sentence_iff: termination + soundness + "
+             "completeness: beyond some fuel Parse(Sentence(g)) answers, and succeeds exactly when a derivation of g consumes the "
+             "whole input - direct, indirect and hidden left recursion included); outside that fragment the harness's derivation "
+             "oracle decides the IF direction per case (known finding D9: Name/Single over Optional).",
         note="c04_sentence_sound needs Scope (no trims, TermGood terminals); c04_xor needs nothing.",
         technique="Lean 4 theorems over the parse/evaluate model (case analysis of Parse, derivation inversion for Sentence, induction for the evaluator) + oracle on the real Parse/Evaluate under recover + differential correspondence"),
     "C05": dict(
